@@ -458,6 +458,32 @@ val voffset : int list -> nrange list -> int list -> int
 
 val view_off : int list -> nrange list -> int -> int
 
+val upd1 : (int -> 'a1) -> int -> 'a1 -> int -> 'a1
+
+val scatter :
+  (int -> int) -> (int -> (int -> 'a1) -> 'a1) -> int -> (int -> 'a1) -> int
+  -> 'a1
+
+val idx2 : int -> int list -> int list -> int list
+
+val idx_col : int -> int list -> int -> int list
+
+val idx_row : int -> int -> int list -> int list
+
+val idx_it_range : int -> int list -> nrange -> int list
+
+val idx_range_it : int -> nrange -> int list -> int list
+
+val rv_read : (int -> 'a1) -> int list -> 'a1 list
+
+val rv_write :
+  ('a1 -> 'a1 -> 'a1) -> int list -> (int -> 'a1) -> (int -> 'a1) -> int ->
+  'a1
+
+val filter_write :
+  ('a1 -> 'a1 -> 'a1) -> (int -> bool) -> (int -> 'a1) -> int -> (int -> 'a1)
+  -> int -> 'a1
+
 val run_matmul_Z :
   cfg -> ety -> int -> int -> int -> z list -> z list -> z list
 
@@ -486,3 +512,21 @@ val run_det_Z : int -> z list -> z
 val run_view : bool -> int list -> ((z * z) * z) list -> int list * int list
 
 val run_admissible : bool -> int -> ((z * z) * z) -> bool
+
+val rv_op : int -> z -> z -> z
+
+val run_rv_read : int list -> z list -> z list
+
+val run_rv_write : int -> int list -> z list -> z list -> z list
+
+val run_filter_write : int -> bool list -> z list -> z list -> z list
+
+val run_idx2 : int -> int list -> int list -> int list
+
+val run_idx_col : int -> int list -> int -> int list
+
+val run_idx_row : int -> int -> int list -> int list
+
+val run_idx_it_range : int -> int list -> int -> ((z * z) * z) -> int list
+
+val run_idx_range_it : int -> int -> ((z * z) * z) -> int list -> int list
